@@ -442,6 +442,7 @@ type FuncSpec struct {
 	Line     int
 	Opaque   bool
 	Inline   bool // callers execute the body instead of using the contract
+	Cex      bool // axiom used only when searching for counterexample models
 	Havoc    []string
 	Notes    []string
 }
@@ -768,7 +769,7 @@ func (sp *Specs) parseFile(path string) error {
 			}
 			sp.Defines[key] = d
 			cur, curLoop = nil, nil
-		case "axiom":
+		case "axiom", "cexaxiom":
 			// axiom name(params): expr
 			ci := strings.Index(rest, "):")
 			if ci < 0 {
@@ -782,7 +783,7 @@ func (sp *Specs) parseFile(path string) error {
 			if err != nil {
 				return errf("%v", err)
 			}
-			sp.Axioms[key] = &FuncSpec{Key: key, Kind: "axiom", Params: ps, Body: e, File: base, Line: l.no}
+			sp.Axioms[key] = &FuncSpec{Key: key, Kind: "axiom", Params: ps, Body: e, File: base, Line: l.no, Cex: kw == "cexaxiom"}
 			cur, curLoop = nil, nil
 		case "ghostfield":
 			// ghostfield name(OwnerType) Sort
